@@ -56,6 +56,29 @@ func main() {
 			dir = os.Args[2]
 		}
 		os.Exit(matrix(dir))
+	case "tables":
+		pp, err := core.Load(core.LoadOpts{Dir: repoDir()})
+		if err != nil {
+			fmt.Println(err)
+			os.Exit(2)
+		}
+		tw := 0
+		if len(os.Args) > 2 {
+			tw, _ = strconv.Atoi(os.Args[2])
+		}
+		rules.DumpTables(rules.NewRun(pp, "quick"), tw)
+	case "paths":
+		// development aid: print the abstract paths / decision table of a cache method
+		if len(os.Args) < 4 {
+			usage()
+		}
+		pp, err := core.Load(core.LoadOpts{Dir: repoDir()})
+		if err != nil {
+			fmt.Println(err)
+			os.Exit(2)
+		}
+		tw, _ := strconv.Atoi(os.Args[2])
+		rules.DumpPaths(rules.NewRun(pp, "quick"), tw, os.Args[3])
 	case "list":
 		var ids []string
 		for id := range rules.Registry {
